@@ -820,6 +820,9 @@ class Container:
         else:
             raise ValueError("Invalid quantity unit.")
 
+        source_mass = sum(Unit.convert_from(substance, amount,
+                                            'U' if substance.is_enzyme() else config.moles_storage_unit, 'g')
+                          for substance, amount in source_container.contents.items())
         source_container, to = deepcopy(source_container), deepcopy(self)
         for substance, amount in source_container.contents.items():
             to_transfer = amount * ratio
@@ -835,11 +838,8 @@ class Container:
             transfer = Unit.convert_from_storage(ratio * source_container.volume, 'L')
             transfer, unit = Unit.get_human_readable_unit(transfer, 'L')
         else:
-            # total mass in source container times ratio
-            mass = sum(Unit.convert(substance,
-                                    f"{amount} {config.moles_storage_unit if not substance.is_enzyme() else 'U'}",
-                                    "mg") for substance, amount in source_container.contents.items())
-            transfer, unit = Unit.get_human_readable_unit(mass * ratio, 'mg')
+            # total mass in the source container before the transfer times ratio
+            transfer, unit = Unit.get_human_readable_unit(source_mass * ratio, 'g')
         precision = config.precisions[unit] if unit in config.precisions else config.precisions['default']
         to.instructions += f"\nTransfer {round(transfer, precision)} {unit} of {source_container.name} to {to.name}"
         to.volume = 0
